@@ -269,9 +269,69 @@ structure GCtx where
   hasLt : Bool
 deriving Inhabited
 
+/-! ### composed types
+
+Beside the fixed pools, types are *composed*: a leaf (a parameter, a projection of it, something that only looks like
+one, `Self`) is wrapped one to three times in a context chosen among every syntactic position a type can stand in —
+generic argument of the last or of an earlier path segment, self type or trait argument of a qualified path, behind
+`&` / `*`, in a slice, array, tuple, function pointer, parenthesis, trait object, parenthesized `Fn` sugar, associated-type
+binding.  Whether the expander finds (or rewrites) the leaf must not depend on where it stands. -/
+
+def tyContexts (hasLt : Bool) : List (Ty → Ty) :=
+  [fun t => Ty.app "Option" [t], fun t => Ty.app "Vec" [t], fun t => Ty.app "Box" [t], fun t => Ty.app "PhantomData" [t],
+   fun t => Ty.app "Pair" [Ty.simple "u8", t], fun t => Ty.app "Pair" [t, Ty.simple "u8"],
+   fun t => .path false [.mk "std" [], .mk "vec" [], .mk "Vec" [.ty t]],
+   fun t => .path true [.mk "std" [], .mk "vec" [], .mk "Vec" [.ty t]],
+   fun t => .path true [.mk "core" [], .mk "option" [], .mk "Option" [.ty t]],
+   fun t => .path false [.mk "Outer" [.ty t], .mk "Inner" []],
+   fun t => .path true [.mk "m" [], .mk "Outer" [.ty t], .mk "Inner" [.lt "'static"]],
+   fun t => .qpath t false [.mk "Tr" []] [.mk "Assoc" []],
+   fun t => .qpath t true [.mk "core" [], .mk "iter" [], .mk "Iterator" []] [.mk "Item" []],
+   fun t => .qpath (Ty.simple "u8") false [.mk "Conv" [.ty t]] [.mk "Out" []],
+   fun t => .qpath (Ty.simple "u8") true [.mk "m" [], .mk "Conv" [.ty t]] [.mk "Out" []],
+   fun t => .qpath (Ty.simple "u8") false [.mk "Tr" []] [.mk "Gat" [.ty t]],
+   fun t => .ptr false t, fun t => .ptr true t, fun t => .ref (some "'static") false t,
+   fun t => .slice t, fun t => .array t (.lit "3"), fun t => .tuple [t], fun t => .tuple [Ty.simple "u8", t],
+   fun t => .tuple [t, Ty.simple "u8"], fun t => .bareFn [t] none, fun t => .bareFn [] (some t),
+   fun t => .bareFn [Ty.simple "u8", t] (some (Ty.simple "u8")), fun t => .paren t,
+   fun t => Ty.app "Box" [.dynT false [.mk "Tr2" [.ty t]]], fun t => Ty.app "Box" [.dynT false [.mk "Tr2" [.ty t]] [["Send"]]],
+   fun t => Ty.app "Box" [.dynT false [.fn "Fn" [t] none]], fun t => Ty.app "Box" [.dynT false [.fn "Fn" [] (some t)]],
+   fun t => Ty.app "Box" [.dynT true [.mk "core" [], .mk "ops" [], .fn "FnMut" [Ty.simple "u8", t] (some (Ty.simple "u8"))]],
+   fun t => .path false [.mk "Other" [.assoc "Assoc" t]],
+   fun t => Ty.app "Box" [.dynT false [.mk "Iterator" [.assoc "Item" t]]],
+   fun t => .path false [.mk "Cow" [.lt "'static", .ty t]]] ++
+  (if hasLt then [fun t => .ref (some "'a") false t, fun t => .ref (some "'a") true t,
+                  fun t => .path false [.mk "Cow" [.lt "'a", .ty t]]] else [])
+
+/-- wrap a leaf `depth` times -/
+def wrapTy (hasLt : Bool) (leaf : Ty) : Nat → Gen Ty
+  | 0 => pure leaf
+  | d + 1 => do
+    let inner ← wrapTy hasLt leaf d
+    let c ← pick (tyContexts hasLt)
+    pure (c inner)
+
+instance : Inhabited (Ty → Ty) := ⟨id⟩
+
+def genComposedTy (ctx : GCtx) : Gen Ty := do
+  let leaves : List (Nat × Ty) :=
+    [(6, tyT), (2, .path false [.mk "T" [], .mk "Assoc" []]), (1, .path true [.mk "T" []]), (1, .path false [.mk "m" [], .mk "T" []]),
+     (1, Ty.simple "u8")] ++
+    (if ctx.hasU then [(3, tyU)] else []) ++
+    (if ctx.hasN then [(2, .array (Ty.simple "u8") (.ident "N")), (2, Ty.app "Arr" [Ty.simple "N"]), (1, .array tyT (.ident "N"))] else [])
+  let leaf ← pickW leaves
+  let depth ← pickW [(3, 1), (3, 2), (1, 3)]
+  wrapTy ctx.hasLt leaf depth
+
+/-- `Self` somewhere inside a type (for the `Output`, the right-hand side and the where-clause of an `impl`) -/
+def genComposedSelf : Gen Ty := do
+  let depth ← pickW [(3, 1), (3, 2), (1, 3)]
+  wrapTy false Ty.selfTy depth
+
 def genTy (cfg : GCfg) (ctx : GCtx) : Gen Ty := do
   if ← chance cfg.trickyPct 100 then pick trickyTys
-  else if ctx.hasT && (← chance 65 100) then pick (genericTys ctx.hasU ctx.hasN ctx.hasLt)
+  else if ctx.hasT && (← chance 65 100) then
+    if ← chance 1 3 then genComposedTy ctx else pick (genericTys ctx.hasU ctx.hasN ctx.hasLt)
   else pick concreteTys
 
 def genForeign (cfg : GCfg) : Gen (List Attr) := do
@@ -439,6 +499,12 @@ def genGenerics (cfg : GCfg) : Gen (Generics × GCtx) := do
     (1, [.lt "'a" ["'static"], .ty [] tyT [.trait false [] (Ty.simple "W1")]]),
     (1, [.ty [] (Ty.app "Box" [tyT]) [.trait true [] (Ty.simple "Sized")]]),
     (1, [.ty [] (.path true [.mk "T" []]) [.trait true [] (Ty.simple "Sized")]])]
+  -- `Self` anywhere inside the bounded type and inside the bound
+  let wh ← if ← chance 1 8 then (do
+      let t1 ← genComposedSelf
+      let t2 ← genComposedSelf
+      pure (wh ++ [.ty [] t1 [.trait false [] (.path false [.mk "W3" [.ty t2]])]]))
+    else pure wh
   pure ({ params := ps, wheres := wh }, { hasT := true, hasU, hasN, hasLt })
 
 def genDeriveItems (cfg : GCfg) (traits : List String) (marker : Nat) : Gen (List DeriveItem) :=
@@ -552,6 +618,7 @@ def genImplCase (fam : String) (seed idx : Nat) : Case := runGen seed idx do
                       (1, some x), (1, some (.ref none false x)), (1, some (.ref (some "'a") false (Ty.simple "u8"))),
                       (1, some (.qpath Ty.selfTy false [.mk "Tr" []] [.mk "Assoc" []])),
                       (1, some (.ref none false (.qpath (Ty.app "Vec" [Ty.selfTy]) false [.mk "Tr" []] [.mk "Assoc" []])))]
+  let rhsArg ← if ← chance 1 5 then (do pure (some (← genComposedSelf))) else pure rhsArg
   let traitName := op.str ++ (if baseAssign then "Assign" else "")
   -- now and then the single generic argument of the trait is not a type (then the right-hand side is `Self`)
   let oddArg ← pickW [(20, (none : Option GArg)), (1, some (.lt "'a")), (1, some (.lit "3")), (1, some (.assoc "Output" (Ty.simple "u8")))]
@@ -578,6 +645,7 @@ def genImplCase (fam : String) (seed idx : Nat) : Case := runGen seed idx do
                       -- `Self` as the self type of a qualified path
                       (1, some (.qpath Ty.selfTy false [.mk "Tr" []] [.mk "Assoc" []])),
                       (1, some (.qpath (Ty.app "Wrap" [Ty.selfTy]) true [.mk "m" [], .mk "Tr" [.ty Ty.selfTy]] [.mk "Assoc" []]))]
+  let output ← if ← chance 1 4 then (do pure (some (← genComposedSelf))) else pure output
   let fnToks : Toks := ["fn", "f", "(", "self", ")", "{", "}"]
   let members : List ImplMember :=
     (if baseAssign then [] else (match output with | some t => [.output t] | none => [])) ++ [.other fnToks]
@@ -590,6 +658,11 @@ def genImplCase (fam : String) (seed idx : Nat) : Case := runGen seed idx do
                   (1, [.ty [] tyT [.trait false [] (.path false [.mk "Tr" [.ty Ty.selfTy]])]]),
                   (1, [.ty [] (.qpath Ty.selfTy false [.mk "Tr" []] [.mk "Assoc" []]) [.trait false [] (Ty.simple "Clone")]]),
                   (1, [.ty [] (Ty.simple "u8") [.trait false [] (.path false [.mk "Tr" [.assoc "Assoc" (.qpath Ty.selfTy false [.mk "Tr" []] [.mk "Assoc" []])]])]])]
+  let wh ← if ← chance 1 6 then (do
+      let t1 ← genComposedSelf
+      let t2 ← genComposedSelf
+      pure (wh ++ [.ty [] t1 [.trait false [] (.path false [.mk "Tr" [.ty t2]])]]))
+    else pure wh
   let ps : List GParam := (if generic then [.ty "T" [] none] else []) ++
     (match selfTy with | .ref (some _) _ _ => [.lt "'a" []] | _ => [])
   let ps := ps.filter (·.isLt) ++ ps.filter (!·.isLt)
